@@ -81,14 +81,14 @@ Fixpoint dscan (strict : bool) (f : func) (C : cert) (Q : qcert) (asz : Z -> Z) 
   | _, _ => false
   end.
 
-Definition dcheck_block (strict : bool) (f f' : func) (C : cert) (Q : qcert) (b : N) : bool :=
+Definition dcheck_block (strict : bool) (f f' : func) (C : cert) (Q : qcert) (asz : Z -> Z) (b : N) : bool :=
   list_eqb inst_eqb (leading_phis (nth_block f b)) (leading_phis (nth_block f' b))
-  && dscan strict f C Q (asz_of f) (cert_at C b) (q_at Q b) (body (nth_block f b)) (body (nth_block f' b)).
+  && dscan strict f C Q asz (cert_at C b) (q_at Q b) (body (nth_block f b)) (body (nth_block f' b)).
 
 Definition dse_check_with (strict : bool) (f f' : func) (C : cert) (Q : qcert) : bool :=
   Nat.eqb (List.length f) (List.length f') && null (cert_at C 0%N) && null (q_at Q 0%N)
   && forallb (fun g => pure_fact g) (List.concat C)
-  && forallb (fun b => dcheck_block strict f f' C Q (N.of_nat b)) (seq 0 (List.length f)).
+  && (let asz := asz_of f in forallb (fun b => dcheck_block strict f f' C Q asz (N.of_nat b)) (seq 0 (List.length f))).
 
 (* ------------------------------------------------------------------ inference of Q (not trusted) *)
 Definition add_items (P Q0 : list pitem) : list pitem :=
@@ -108,12 +108,18 @@ Fixpoint dflow (f : func) (asz : Z -> Z) (F : list fact) (P : list pitem) (l l' 
   | _, _ => acc
   end.
 
-Definition dinfer_round (f f' : func) (C : cert) (acc : qcert) : qcert :=
-  fold_left (fun a b => dflow f (asz_of f) (cert_at C (N.of_nat b)) (nth b a [])
+Definition dinfer_round (f f' : func) (C : cert) (asz : Z -> Z) (acc : qcert) : qcert :=
+  fold_left (fun a b => dflow f asz (cert_at C (N.of_nat b)) (nth b a [])
                               (body (nth b f [])) (body (nth b f' [])) a) (seq 0 (List.length f)) acc.
-Fixpoint dinfer_iter (n : nat) (f f' : func) (C : cert) (acc : qcert) : qcert :=
-  match n with O => acc | S k => dinfer_iter k f f' C (dinfer_round f f' C acc) end.
-Definition dinfer (f f' : func) (C : cert) : qcert := dinfer_iter (2 + List.length f) f f' C (repeat [] (List.length f)).
+Definition qmeasure (acc : qcert) : nat := fold_left (fun n q => (n + List.length q)%nat) acc O.
+Fixpoint dinfer_iter (n : nat) (f f' : func) (C : cert) (asz : Z -> Z) (acc : qcert) : qcert :=
+  match n with
+  | O => acc
+  | S k => let acc' := dinfer_round f f' C asz acc in
+           if Nat.eqb (qmeasure acc') (qmeasure acc) then acc' else dinfer_iter k f f' C asz acc'
+  end.
+Definition dinfer (f f' : func) (C : cert) : qcert :=
+  let asz := asz_of f in dinfer_iter (4 + 2 * List.length f) f f' C asz (repeat [] (List.length f)).
 
 Definition pure_cert (C : cert) : cert := map (filter pure_fact) C.
 
